@@ -8,9 +8,9 @@ git diff -- ciphercore-base/src > out/patch.verified.diff
 [ -s out/patch.verified.diff ] || { echo "$ID: no source change in worktree"; exit 9; }
 cp out/demo.rs ciphercore-base/tests/demo.rs 2>/dev/null || { mkdir -p ciphercore-base/tests; cp out/demo.rs ciphercore-base/tests/demo.rs; }
 cargo test -p ciphercore-base --offline --test demo -j8 > out/verify_with.log 2>&1; rc1=$?
-git stash push -q -- ciphercore-base/src
+git apply -R out/patch.verified.diff   # (not git stash: the stash is shared between worktrees)
 cargo test -p ciphercore-base --offline --test demo -j8 > out/verify_without.log 2>&1; rc2=$?
-git stash pop -q
+git apply out/patch.verified.diff
 rm -f ciphercore-base/tests/demo.rs
 rc3=skipped
 if [ "$2" != "nosuite" ]; then
